@@ -1527,6 +1527,8 @@ class Interp:
         if isinstance(o, list):
             if is_sym(k):
                 raise Unsupported('symbolic list index store')
+            if not isinstance(k, (int, slice)):
+                raise Unsupported('list / small-array store with an index that is neither an integer nor a slice')
             o[k] = v
             return
         if isinstance(o, NDArr):
